@@ -231,7 +231,7 @@ def classify(results, unit):
             creq += 1
             if st == "FAILURE":
                 cfired += 1
-            else:
+            elif not unit.get("_kf_only"):
                 und = "canary not reachable (vacuous): " + desc
             continue
         obl += 1
@@ -251,6 +251,8 @@ def run_unit(unit, prop, tier, cfg, rundir, extra_defs=(), tag=""):
     """returns a result dict; never raises"""
     t0 = time.time()
     uid = unit["id"] + (("@" + tag) if tag else "")
+    if tag.startswith("kf-"):
+        unit = dict(unit, _kf_only=True)  # a restricted region need not reach every canary
     wdir = os.path.join(rundir, uid.replace("/", "_"))
     os.makedirs(wdir, exist_ok=True)
     res = {"id": uid, "unit": unit["id"], "enforce": unit.get("enforce"), "replaced": unit.get("replace", []),
@@ -361,6 +363,8 @@ def native_replay(prop, unit, failure, cfg, rundir):
     names = rp.get("sources", "all")
     if names == "all":
         names = cfg["sources"]
+    elif isinstance(names, dict):
+        names = [n for n in cfg["sources"] if n not in names.get("all_except", [])] + names.get("plus", [])
     odir = os.path.join(rundir, "nat_%s_%d" % (unit["id"].replace("/", "_"), os.getpid()))
     os.makedirs(odir, exist_ok=True)
 
